@@ -44,7 +44,18 @@ func (f *Fam) Exec(op string) (obs string, fails []common.Failure) {
 	if w[0] == "init" {
 		obs = f.doInit(w)
 		if !f.dead {
-			f.invariants(f.app.Snap(), op, fail)
+			after := f.app.Snap()
+			f.invariants(after, op, fail)
+			// every parameter the chain was configured with is stored under its own key, as configured: the windows,
+			// durations, fractions and limits the properties speak of are these
+			m := kv(w)
+			got := after.govText()
+			for _, c := range [][2]string{{"ms", "ms"}, {"mv", "mv"}, {"ut", "ut"}, {"w", "w"}, {"mspw", "mspw"}, {"jd", "jd"}, {"mea", "mea"}, {"sfds", "sfds"}, {"sfdt", "sfdt"}} {
+				want := c[1] + "=" + m[c[0]]
+				if !strings.Contains(got, "["+want+",") && !strings.Contains(got, ","+want+",") {
+					fail("configured", "genesis-parameter-not-as-configured", fmt.Sprintf("the chain was configured with %s, the parameter store holds%.400s", want, got))
+				}
+			}
 		}
 		return
 	}
@@ -99,6 +110,17 @@ func (f *Fam) Exec(op string) (obs string, fails []common.Failure) {
 		after := f.app.Snap()
 		obs = r + " | " + after.String()
 		f.checkTx(before, after, r, bz, msg, t, fail)
+	case "mon.glue":
+		seed := atoi(w[1])
+		func() {
+			defer func() {
+				if e := recover(); e != nil {
+					fail("glue", "glue-monitor-panic", fmt.Sprint(e))
+				}
+			}()
+			f.monGlue(seed, fail)
+		}()
+		return "done", fails
 	case "mon.query":
 		f.monQuery(fail)
 		return "done", fails
